@@ -1711,6 +1711,9 @@ func (e *env) awaitCalls(after bool, witness func(map[string]any) any) int {
 				e.res.Count("after_stop_served_from_cache/"+c.Kind, 1)
 			case strings.HasPrefix(c.Kind, apiKind):
 				// no shutdown error in these signatures; returning is the rule
+			case c.Kind == CStopAgain || c.Kind == CStartAfterStop:
+				// start-state family: a repeated Stop / a Start after Stop
+				// report nothing by design; returning is the rule
 			default:
 				e.res.Violate(evid.Sig("accepted-after-stop", c.Kind),
 					fmt.Sprintf("%s made after Stop had returned reported success", c.Kind), witness(nil))
